@@ -5,7 +5,7 @@ from vlib import core, enumgen
 from vlib.sexp import Q
 
 PROP = "C12"
-LEAN_MODULES = ["ShootVerif.Props.C12", "ShootVerif.Props.C12Facts"]
+LEAN_MODULES = ["ShootVerif.Props.C12", "ShootVerif.Props.C12Facts", "ShootVerif.Props.C12Hist"]
 USES_FACTS = True
 DRIVER = "shootmodel_enum"
 enumgen.regen_enum_facts()          # lean/ShootVerif/Gen/EnumFacts.lean follows the current source (Props/C04Facts.lean)
@@ -57,7 +57,7 @@ def make_cases(ctx, cid, en, flags, mode=None):
              ["jsons"] + [l for _, l in jsons], ["sqls"] + [l for _, l in sqls],
              ["ints"] + [[tv] + [str(v) for v in vs] for tv, vs in main_ints], ["encs"] + [str(v) for v in encs]]
     args = ["enum"] + ["-" + f for f in flags] + lay["sel"]
-    main = {"id": cid, "en": en, "decl": decl, "flags": flags, "files": lay["files"], "verbose": lay["verbose"], "mode": lay["mode"] + ("+spread" if lay["spread"] and lay["mode"].startswith("file") else ""),
+    main = {"id": cid, "en": en, "decl": decl, "flags": flags, "files": lay["files"], "verbose": lay["verbose"], "neutral": lay["neutral"], "mode": lay["mode"] + ("+spread" if lay["spread"] and lay["mode"].startswith("file") else ""),
             "runs": [{"args": args}] * (2 if rerun else 1), "rerun": rerun,
             "oracle": {".": enumgen.oracle_c12(en, decl, flags, target, strs, jsons, sqls, main_ints, encs, tints, hops)}, "hist": hops,
             "sexp": enumgen.case_sexp(cid, "c12", en, extra), "cmd": "shoot " + " ".join(args), "kind": "main",
@@ -166,6 +166,9 @@ def run(ctx, obl):
             res.hist("run-mode", main["mode"])
             res.hist("rerun", str(main["rerun"]))
             res.hist("verbose-flag", str(main["verbose"]))
+            res.hist("neutral-flags", "+".join(sorted(main["neutral"])) or "none")
+            for k in enumgen.hist_kinds(main.get("hist", [])):
+                res.hist("history-calls", k)
             res.hist("generated-header-file", str(bool(main["en"].get("genheader"))))
             res.hist("requested-feature", main["en"].get("feature", "random"))
             res.hist("constants", str(len(main["decl"])))
